@@ -1,5 +1,178 @@
+import Casket.Model.Middleware
+import Casket.Spec.Middleware
 import Driver.Proto
-/- Streams of C12 (stub: not built yet). -/
+/-
+Streams of C12.
+  c12.serve   stack  path  ae  inner
+      stack = comma list of the directives present in the site (any order; the real chain is
+              ordered by casket): limits request_id log rewrite gzip header errors:<plain|page404|visible>
+              status mime internal templates
+      path  = html | bin      ae = 1 | 0 (Accept-Encoding: gzip sent)
+      inner = ret:<s>:<0|1> | write:<s|->:<hex>:<0|1>:<kind>:<cl 0|1>:<mode> | file:<kind>:<hex>
+              | panic | panicafter:<s|->:<hex>
+              kind = plain | tok | tparse | texec  (what text/template makes of the body)
+              mode = w | c | s | wf | fw | nw  (Write, io.Copy, io.WriteString, Write+Flush, Flush+Write, optional-interface
+                     assertions + CloseNotify + Push then Write: all a write for the model)
+              file: the request goes to the real static file server (Content-Length, ETag …), returns (200, nil)
+      out   = <commits> <status> <cl> <body> <followup>
+              cl   = - absent | = equals the bytes sent | ! differs
+              body = - | '+' list of <r|g>:<chunk>; chunk inner:<hex> rendered:<hex of the source>
+                     errtext:<s> custom:<s> debugerr debugpanic
+              followup = ok | bad   (a plain request served right after by the same server)
+-/
 namespace Driver.C12
-def streams : List Driver.Stream := []
+open Casket.Mw Casket.MwSpec
+
+def parseMode : String → Option ErrMode
+  | "plain" => some .plain
+  | "page404" => some .page404
+  | "visible" => some .visible
+  | _ => none
+
+def parseStack (s : String) : Option Cfg :=
+  let parts := if s = "" then [] else s.splitOn ","
+  let errs := parts.filter (·.startsWith "errors:")
+  let mode : Option (Option ErrMode) := match errs with
+    | [] => some none
+    | [e] => (parseMode (e.drop 7).toString).map some
+    | _ => none
+  mode.map fun m =>
+    { log := parts.contains "log", gzip := parts.contains "gzip", header := parts.contains "header",
+      errors := m, templates := parts.contains "templates" }
+
+def parseOptNat (s : String) : Option (Option Nat) :=
+  if s = "-" then some none else s.toNat?.map some
+
+def parseKind : String → Option BodyKind
+  | "plain" => some .plain
+  | "tok" => some .tplOK
+  | "tparse" => some .tplParse
+  | "texec" => some .tplExec
+  | _ => none
+
+def parseInner (s : String) : Option Inner :=
+  match s.splitOn ":" with
+  | ["ret", st, e] => do pure (.ret (← st.toNat?) (e == "1"))
+  | ["write", st, b, e, k, cl, _mode] => do
+    pure (.write (← parseOptNat st) (← Driver.unhex b) (e == "1") (← parseKind k) (cl == "1"))
+  | ["file", k, b] => do pure (.write (some 200) (← Driver.unhex b) false (← parseKind k) true)
+  | ["panic"] => some .panicBefore
+  | ["panicafter", st, b] => do pure (.panicAfter (← parseOptNat st) (← Driver.unhex b))
+  | _ => none
+
+structure Case where
+  cfg : Cfg
+  req : Req
+  inner : Inner
+
+def parseCase : List String → Option Case
+  | [st, p, ae, i] => do
+    pure { cfg := ← parseStack st, req := { html := p == "html", ae := ae == "1" }, inner := ← parseInner i }
+  | _ => none
+
+def showChunk : Chunk → String
+  | .inner b => "inner:" ++ Driver.hex b
+  | .rendered b => "rendered:" ++ Driver.hex b
+  | .errText s => s!"errtext:{s}"
+  | .custom s => s!"custom:{s}"
+  | .debugErr => "debugerr"
+  | .debugPanic => "debugpanic"
+
+def showBody (b : List (Chunk × Bool)) : String :=
+  if b.isEmpty then "-" else "+".intercalate (b.map fun x => (if x.2 then "g:" else "r:") ++ showChunk x.1)
+
+def showCL (r : Resp) : String :=
+  match r.cl with
+  | none => "-"
+  | some _ => if clOK r then "=" else "!"
+
+def showResp (r : Resp) : String := s!"{r.commits} {r.status} {showCL r} {showBody r.body}"
+
+/-- an observed response: the Content-Length state is turned back into a symbolic value that is
+right (`=`) or wrong (`!`) for the observed body -/
+def mkResp (commits status : Nat) (cl : String) (body : List (Chunk × Bool)) : Option Resp :=
+  let mk := fun (c : Option Chunk) => some { commits := commits, status := status, body := body, cl := c, live := c }
+  if cl = "-" then mk none
+  else if cl = "=" then
+    (match body with
+      | [(c, false)] => mk (some c)
+      | [] => mk (some (.inner []))
+      | _ => mk none)   -- a correct length of a multi-chunk body: nothing to object to
+  else if cl = "!" then mk (some (.custom 0))  -- a value that describes no body the server sends
+  else none
+
+def parseChunk (s : String) : Option (Chunk × Bool) :=
+  let enc := s.startsWith "g:"
+  if !(enc || s.startsWith "r:") then none
+  else
+    match ((s.drop 2).toString).splitOn ":" with
+    | ["inner", h] => (Driver.unhex h).map fun b => (.inner b, enc)
+    | ["rendered", h] => (Driver.unhex h).map fun b => (.rendered b, enc)
+    | ["errtext", n] => n.toNat?.map fun n => (.errText n, enc)
+    | ["custom", n] => n.toNat?.map fun n => (.custom n, enc)
+    | ["debugerr"] => some (.debugErr, enc)
+    | ["debugpanic"] => some (.debugPanic, enc)
+    | _ => none
+
+def parseBody (s : String) : Option (List (Chunk × Bool)) :=
+  if s = "-" then some [] else (s.splitOn "+").mapM parseChunk
+
+def serveModel (f : List String) : String :=
+  match parseCase f with
+  | none => "bad-case"
+  | some c => showResp (serve c.cfg c.req c.inner) ++ " ok"
+
+def serveJudge (f : List String) (out : String) : String :=
+  if out.startsWith "PANIC:" then "bad:not-contained:a panic escaped Server.ServeHTTP"
+  else if (out.splitOn "other:").length > 1 then "bad:body:the body contains bytes that are neither the handler's nor a known error page"
+  else if (out.splitOn "X:").length > 1 then "bad:body:the body is not decodable under its Content-Encoding"
+  else
+  match parseCase f, out.splitOn " " with
+  | some c, [cm, st, cl, body, fu] =>
+    match cm.toNat?, st.toNat?, parseBody body with
+    | some cm, some st, some body =>
+      match mkResp cm st cl body with
+      | none => "bad:unparsable:" ++ out
+      | some r =>
+        let v := verdict (c.cfg.templates && c.req.html) (effectiveErrors c.cfg) c.inner r
+        if v != "ok" then v
+        else if fu != "ok" then "bad:not-contained:the server did not serve the next request correctly"
+        else "ok"
+    | _, _, _ => "bad:unparsable:" ++ out
+  | _, _ => "bad:unparsable:" ++ out
+
+/-- c12.live: the response as an HTTP client sees it (one response head per request by
+framing; a response never committed is net/http's implicit 200) -/
+def liveModel (f : List String) : String :=
+  match parseCase f with
+  | none => "bad-case"
+  | some c =>
+    let r := serve c.cfg c.req c.inner
+    s!"{if r.status = 0 then 200 else r.status} {if clOK r then "ok" else "!"} {showBody r.body} ok ok"
+
+def liveJudge (f : List String) (out : String) : String :=
+  if (out.splitOn "ERR:").length > 1 then "bad:malformed:the client did not get a complete response (connection cut, or fewer bytes than declared)"
+  else if (out.splitOn "other:").length > 1 then "bad:body:the body contains bytes that are neither the handler's nor a known error page"
+  else if (out.splitOn "X:").length > 1 then "bad:body:the body is not decodable under its Content-Encoding"
+  else
+  match parseCase f, out.splitOn " " with
+  | some c, [st, cl, body, f1, f2] =>
+    match st.toNat?, parseBody body with
+    | some st, some body =>
+      match mkResp 1 st (if cl = "ok" then "-" else "!") body with
+      | none => "bad:unparsable:" ++ out
+      | some r =>
+        let v := verdict (c.cfg.templates && c.req.html) (effectiveErrors c.cfg) c.inner r
+        if v != "ok" then v
+        else if f1 != "ok" then "bad:not-contained:the connection did not serve the next request"
+        else if f2 != "ok" then "bad:not-contained:the server did not serve a new connection"
+        else "ok"
+    | _, _ => "bad:unparsable:" ++ out
+  | _, _ => "bad:unparsable:" ++ out
+
+def streams : List Driver.Stream := [
+  { name := "c12.serve", model := serveModel, judge := serveJudge },
+  { name := "c12.live", model := liveModel, judge := liveJudge }
+]
+
 end Driver.C12
